@@ -49,6 +49,37 @@ def gen_shape(rng, recursive):
     return shape
 
 
+def multi_linear_shape(rng):
+    """linearly recursive grammars in which ONE nonterminal has several rules that recurse on the SAME nonterminal
+    (X -> a X | b X | c, possibly through a second nonterminal): the block of the linear system for (X, X) is a SUM over rules"""
+    d = rng.choice([1, 2, 2, 3])
+    ar = rng.choice([0, 1])
+    nls = [d]
+    terms = [[0] * ar, [0] * ar, [0] * ar, [0, 0] if ar else []]
+    nts = [[0] * ar] + ([[0] * ar] if rng.random() < 0.4 else [])
+    rules = []
+    k = rng.choice([2, 2, 3])
+    for j in range(k):
+        tgt = rng.randrange(len(nts))
+        if ar:
+            # X(v) -> t_j(v) Y(w) m(v, w)
+            rules.append(dict(lhs=0, nodes=[0, 0], ext=[0], edges=[['t', j % 3, [0]], ['n', tgt, [1]], ['t', 3, [0, 1]]]))
+        else:
+            rules.append(dict(lhs=0, nodes=[], ext=[], edges=[['t', j % 3, []], ['n', tgt, []]]))
+    rules.append(dict(lhs=0, nodes=[0] * ar, ext=list(range(ar)), edges=[['t', 2, list(range(ar))]]))
+    if len(nts) == 2:
+        rules.append(dict(lhs=1, nodes=[0] * ar, ext=list(range(ar)), edges=[['n', 0, list(range(ar))], ['t', 1, list(range(ar))]]))
+        rules.append(dict(lhs=1, nodes=[0] * ar, ext=list(range(ar)), edges=[['n', 0, list(range(ar))], ['t', 0, list(range(ar))]]))
+    shape = dict(nls=nls, terms=terms, nts=nts, start=0, rules=rules)
+    import math as _m
+    shape['weights'] = {i: [rng.choice([0.125, 0.25, 0.0625, 0.5]) if i != 2 else rng.choice([1.0, 2.0, 0.5])
+                            for _ in range(_m.prod(nls[l] for l in ty))] for i, ty in enumerate(terms)}
+    if ar:
+        shape['weights'][3] = [rng.choice([0.125, 0.25, 0.0]) for _ in shape['weights'][3]]
+    shape['vweights'] = {i: [rng.choice([-1.0, -2.0, -0.5]) for _ in w] for i, w in shape['weights'].items()}
+    return shape
+
+
 def same_reply(a, b, rtol):
     """replies of two interpreter modes: same keys, same error kind, numbers equal within floating-point
     tolerance (the reduction order of the BLAS kernels may differ between processes by an ulp)"""
@@ -82,6 +113,10 @@ def run(ctx):
         while done < n:
             recursive = ctx.rng.random() < 0.4
             shape = gen_shape(ctx.rng, recursive)
+            if done % 8 == 5:
+                recursive = True
+                shape = multi_linear_shape(ctx.rng)
+                ctx.count('multi-rule-linear-family')
             rec, lin = sccs_and_linearity(shape)
             if recursive and not rec:
                 continue
